@@ -95,7 +95,9 @@ def gen_file(rng, big=70000, marker=True, debug=False, defect=False):
         if intf is not None:
             desc[0xC6] = bytes([intf])
         vd = "*"
-        if typ == 1 and rng.random() < 0.6:
+        # a version descriptor on a loader / main section too: for release firmware the version of the ##Firmware header is
+        # the one that ends up in the tag (it is applied last), for debug firmware the descriptor's
+        if (typ == 1 and rng.random() < 0.6) or (typ != 1 and rng.random() < 0.3):
             v = g.rbytes(rng, rng.choice([4, 4, 7, 2, 3, 5, 1]))
             if hw == 0xBE:
                 v = bytes(rng.choice(b"0123456789.") for _ in range(rng.choice([7, 8, 4, 6])))   # BGM versions are text
